@@ -132,6 +132,9 @@ class Translator:
             if text in self.alias:
                 self.used_alias.add(text)
                 name, typ = self.alias[text]
+                if typ == "Q":      # a rational parameter (a float of the source): numerator and positive denominator
+                    self.positive.add(name + "_d")
+                    return F(name + "_n", name + "_d")
                 return E(name, typ)
         if isinstance(node, ast.List) and not node.elts and self.expect_list_type:
             return E("[]", self.expect_list_type)     # `name = []` for a name whose element type the kernel declares
@@ -432,7 +435,10 @@ class Translator:
                     raise KernelError("abs of a non-integer")
                 return E(f"Z.abs {par(x.text)}", "Z")
             if key == "int":
-                if isinstance(x, F) or x.typ != "Z":
+                if isinstance(x, F):
+                    # int() of a float truncates towards zero: Z.quot of the exact fraction (positive denominator)
+                    return E(f"Z.quot {par(x.num)} {par(x.den)}", "Z")
+                if x.typ != "Z":
                     raise KernelError("int() of a non-integer")
                 return x
             if key == "bool":
